@@ -169,7 +169,7 @@ def drive(ctx, hs, nworkers):
                     box = H.Box().start()
                     stats["listeners"] += 1
                     stats["restarts"] += 1
-        except Exception as exc:  # noqa
+        except Exception:  # noqa
             import traceback
             errors.append(traceback.format_exc())
         finally:
@@ -193,9 +193,7 @@ def blame(ev, prev):
     c, o = ev["cls"], ev["obs"]
     dev = H.deviations(c)
     if not dev:
-        return "valid-after:" + (",".join(
-            "%s=%s" % (d, prev["cls"][d]) for d in H.deviations(prev["cls"]))
-            if prev else "")
+        return "valid-after:" + (prev["obs"]["outcome"] if prev else "")
     if o["outcome"] != "response":
         if c["clen"] in ("nonnum", "neg", "negone", "huge", "long"):
             return "%s:clen=%s" % (o["outcome"], c["clen"])
